@@ -159,7 +159,7 @@ Definition check_history (c : hcase) : nat :=
   else check_hops (hgraphs c) (map (fun ck => (fst ck, new_cache (snd ck))) (hcaches c)) 1 (hops c).
 
 (* ---------- MemoryCache operation lists against Model/Store.v (C08): expected = (hit value, len) per op ---------- *)
-Inductive mcop := OGet (k : nat) | OSet (k v : nat) | OClear.
+Inductive mcop := OGet (k : nat) | OSet (k v : nat) | OClear | OPickle.       (* OPickle: the cache is replaced by its pickle round trip *)
 Definition mkey (k : nat) : sval := SHash (HLeaf (VInt (Z.of_nat k))).
 Fixpoint check_mops (c : cache_state) (i : nat) (ops : list (mcop * (option nat * nat))) : nat :=
   match ops with
@@ -168,7 +168,8 @@ Fixpoint check_mops (c : cache_state) (i : nat) (ops : list (mcop * (option nat 
       let '(r, c') := match o with
                       | OGet k => c_get c (mkey k)
                       | OSet k v => (None, c_set c (mkey k) (SVal (VNat v)))
-                      | OClear => (None, c_clear c) end in
+                      | OClear => (None, c_clear c)
+                      | OPickle => (None, if list_eqb String.eqb MiscGen.mc_reduce_keeps ["size"%string] then new_cache (ck c) else c) end in
       let ok_hit := match o, r, hit with
                     | OGet _, Some (SVal (VNat v)), Some w => Nat.eqb v w
                     | OGet _, None, None => true
